@@ -60,6 +60,7 @@ type monState struct {
 	lastSeen     map[string]*JobSnap // last API report of every job ever seen
 	saveOps      map[int]*saveOpInfo // client -> explicit save in flight (C12 r6c)
 	listOps      map[int]map[string]bool // client -> jobs reported when its HTTP list request arrived
+	replaced     map[string]bool         // jobs that were replaced while they waited
 	snapAtSave   map[int]*Snap       // handed-save index -> API snapshot at the instant the snapshot was built
 	lastChangeAt time.Duration       // fake time of the last step that changed the reported state
 	liveExec      map[string]int     // job -> scheduler runs begun and not yet completed
@@ -71,7 +72,7 @@ type monState struct {
 func newMonState(run *Run) *monState {
 	return &monState{run: run, acc: map[string]*acceptInfo{}, evByJob: map[string][]Event{},
 		startStep: map[string]int{}, startAt: map[string]time.Duration{}, defChanged: map[string]int{},
-		removed: map[string]int{}, firstFail: map[string]int{}, taskOrderByDef: map[string]string{},
+		removed: map[string]int{}, firstFail: map[string]int{}, replaced: map[string]bool{}, taskOrderByDef: map[string]string{},
 		worldOfJob: map[string]int{}, forcedCancel: map[string]bool{}, undefinedAt: map[string]int{},
 		lastSeen: map[string]*JobSnap{}, snapAtSave: map[int]*Snap{}, initialLoaded: "[]",
 		liveExec: map[string]int{}, execPipeline: map[string]string{}}
@@ -414,6 +415,7 @@ func (m *monState) checkSchedule(si *StepInfo, res *OpResult, pre, post *Snap) {
 			continue
 		}
 		if victim != nil && name == victim.Name {
+			m.replaced[name] = true
 			if !(nj.Canceled && nj.Start == nil) {
 				run.violate("C05", "r2", "%sreplaced job %s (the most recently queued waiting job) is not reported canceled", desc, name)
 			}
@@ -1156,7 +1158,13 @@ func (m *monState) onEnd() {
 		}
 		enters := m.events(name, "run-enter")
 		// C02 r4a: every acyclic graph is accepted (a job that was refused at its start carries an error and no start time)
-		if !a.BadGraph && j.Start == nil && j.Canceled && j.HasError {
+		endedWaiting := m.replaced[name] || w.shutdownBegun > 0
+		for _, c := range m.cancels {
+			if c.Job == name && !c.WasStarted {
+				endedWaiting = true
+			}
+		}
+		if !a.BadGraph && j.Start == nil && j.Canceled && j.HasError && !endedWaiting {
 			run.violate("C02", "r4", "job %s has an acyclic task graph (%s) but was refused when it should start: %s", name, graphString(&a.Def), j.LastError)
 		}
 		// C02 r5
